@@ -225,6 +225,31 @@ def r18_7(prog, rep):
     rep.check(ok and seen_slots, "R18.7", f.qualname, f.loc, "__slots__ is consulted only when declared fields / type hints yielded no public name", "__slots__ of the class is preferred over its type hints: slots list only the most-derived class's own names, so inherited public fields disappear from the pairs", detail="slots-fallback")
 
 
+def r18_8(prog, rep, rule="R18.8"):
+    """An 'iterable of pairs' is recognised by any 2-element collection in first position (JSON text of pairs gives lists)."""
+    f = prog.functions.get(f"{C.SERDES}._is_iterable_of_pairs")
+    if f is None:
+        rep.undecided(rule, f"{C.SERDES}.iteritems", "", "peek helper not found")
+        return
+    ok = True
+    seen = 0
+    why = ""
+    for p, r in P.returns(P.paths_of(prog, f)):
+        if r[0] != "tuple" or len(r[1]) != 2:
+            continue
+        flag = r[1][0]
+        if flag == ("const", False):
+            continue
+        seen += 1
+        coll = T.contains(flag, lambda s: T.is_call_to(s, f"{C.INSP}.iscollectiontype", f"{C.INSP}.issequencetype", f"{C.INSP}.isiterabletype"))
+        two = T.contains(flag, lambda s: s[0] == "cmp" and s[1] == "==" and T.is_call_to(s[2], "builtins.len") and s[3] == ("const", 2))
+        narrow = [s for s in T.walk(flag) if (T.is_call_to(s, "builtins.isinstance") and T.refname(s[2][1]) in ("builtins.tuple", "builtins.list")) or (s[0] == "cmp" and s[1] in ("is", "==") and T.refname(s[3]) in ("builtins.tuple", "builtins.list"))]
+        if not (coll and two) or narrow:
+            ok = False
+            why = "the pairs test is narrowed to one concrete class" if narrow else "the pairs test is not `2-element collection`"
+    rep.check(ok and seen > 0, rule, f.qualname, f.loc, "a first element that is any 2-element collection marks an iterable of pairs", f"{why}: pairs given as lists (the JSON text of pairs, a generator of lists) are enumerated by index instead, so a structured target silently gets its defaults", detail="pairs-test")
+
+
 def r18_5(prog, rep):
     iv = prog.function(f"{C.SERDES}.itervalues")
     val = ("param", iv.params[0])
@@ -280,6 +305,7 @@ def run(prog: Program, rep: Report, tier: str):
     rep.rule("R18.4", "public-name filter on every attribute source", floor=4)
     rep.rule("R18.5", "itervalues projects the same strategy; strategy order and arms", floor=5)
     rep.rule("R18.6", "no mutation of the argument", floor=5)
+    rep.rule("R18.8", "pairs are recognised by any 2-element collection", floor=1)
     rep.rule("R18.7", "attribute-source precedence: hints/fields before __slots__", floor=1)
     r18_1(prog, rep)
     r18_2(prog, rep)
@@ -288,3 +314,4 @@ def run(prog: Program, rep: Report, tier: str):
     r18_5(prog, rep)
     r18_6(prog, rep)
     r18_7(prog, rep)
+    r18_8(prog, rep)
